@@ -1102,6 +1102,10 @@ where
                         runtime_types.insert(Some(atom!("Object")));
                     }
                 });
+                if runtime_types.is_empty() {
+                    // `{}`: an empty `type: []` would make Vue reject every value
+                    runtime_types.insert(Some(atom!("Object")));
+                }
             }
             TsType::TsFnOrConstructorType(..) => {
                 runtime_types.insert(Some(atom!("Function")));
@@ -1129,6 +1133,7 @@ where
                 if let Some(aliased) = self.type_aliases.get(&key) {
                     runtime_types.extend(self.infer_runtime_type(aliased));
                 } else if let Some(TsInterfaceDecl {
+                    extends,
                     body: TsInterfaceBody { body, .. },
                     ..
                 }) = self.interfaces.get(&key)
@@ -1142,6 +1147,24 @@ where
                             runtime_types.insert(Some(atom!("Object")));
                         }
                     });
+                    // inherited members count as well (a callable parent makes it a function)
+                    extends.iter().for_each(|parent| {
+                        if let Some(ident) = parent.expr.as_ident() {
+                            runtime_types.extend(self.infer_runtime_type(&TsType::TsTypeRef(
+                                TsTypeRef {
+                                    type_name: TsEntityName::Ident(ident.clone()),
+                                    type_params: parent.type_args.clone(),
+                                    span: DUMMY_SP,
+                                },
+                            )));
+                        } else {
+                            runtime_types.insert(Some(atom!("Object")));
+                        }
+                    });
+                    if runtime_types.is_empty() {
+                        // an empty `type: []` would make Vue reject every value
+                        runtime_types.insert(Some(atom!("Object")));
+                    }
                 } else {
                     match &*ident.sym {
                         "Array" | "Function" | "Object" | "Set" | "Map" | "WeakSet" | "WeakMap"
